@@ -11,6 +11,7 @@ mod ops;
 mod prng;
 mod props;
 mod run;
+mod sanitize;
 mod stubs;
 mod threads;
 
@@ -38,6 +39,7 @@ fn main() {
         Some("worker") if args.len() >= 8 => coord::worker_main(&args[2..]),
         Some("replay") if args.len() >= 3 => coord::replay_main(&args[2]),
         Some("scan") if args.len() >= 4 => scan(&args),
+        Some("threads") => threads::threads_main(&args[2..]),
         _ => usage(),
     };
     std::process::exit(code);
